@@ -160,7 +160,16 @@ class EnvRunner(core.Hooks):
             if ev['a'] in {r[2] for r in m.paused.values()}:
                 self.bump(self.stats['reach'], 'sched_while_paused')
         elif kind == 'past':
-            t = env.now - op[1]
+            d = op[1]
+            if d == 'ulp':
+                import math
+                t = math.nextafter(env.now, float('-inf'))     # the closest representable time before now
+            elif d == 'rel':
+                t = env.now * (1 - 2.0 ** -40)
+                if not t < env.now:
+                    t = env.now - 2.0 ** -40
+            else:
+                t = env.now - d
             before = (list(env._events), list(env._paused_events), env.now)
             try:
                 env.schedule_event(t, 1, Act(self, {'id': 'past', 's': []}), 5, 'past')
@@ -399,7 +408,7 @@ class _Gen:
         if x < 0.55 - pb * 0.3:
             return ['sched', self.ev(depth)]
         if x < 0.60 - pb * 0.3:
-            return ['past', rng.choice((0.25, 0.5, 1, 2.0 ** -20))]
+            return ['past', rng.choice((0.25, 0.5, 1, 2.0 ** -20, 'ulp', 'ulp', 'rel'))]
         x = rng.random()
         if x < 0.38:
             return ['pause', self.asset()]
